@@ -161,6 +161,9 @@ func classify(ref *funcRef) string {
 	if sig.Recv() != nil && strings.HasSuffix(typeStr(sig.Recv().Type()), "executableSchema") && name == "Schema" {
 		return "schemagetter"
 	}
+	if sig.Recv() != nil && strings.HasSuffix(typeStr(sig.Recv().Type()), "executableSchema") && name == "Exec" {
+		return "exec"
+	}
 	inModelsGen := strings.HasSuffix(ref.pkg.Fset.Position(fd.Pos()).Filename, "models-gen.go") || strings.HasSuffix(ref.pkg.Fset.Position(fd.Pos()).Filename, "models_gen.go")
 	if inModelsGen && sig.Recv() != nil && name == "UnmarshalGQL" && sig.Params().Len() == 1 {
 		if pt, ok := sig.Recv().Type().Underlying().(*types.Pointer); ok {
@@ -455,6 +458,20 @@ func closureIsMember(ref *funcRef, fl *ast.FuncLit, fam *Contract) bool {
 		want = fam.Params[0]
 	}
 	member := false
+	if want == "@returned" {
+		// the closures a function hands back: operands of its return statements
+		ast.Inspect(ref.fd.Body, func(n ast.Node) bool {
+			if rs, ok := n.(*ast.ReturnStmt); ok {
+				for _, r := range rs.Results {
+					if r == ast.Expr(fl) {
+						member = true
+					}
+				}
+			}
+			return true
+		})
+		return member
+	}
 	ast.Inspect(ref.fd.Body, func(n ast.Node) bool {
 		as, ok := n.(*ast.AssignStmt)
 		if !ok {
